@@ -519,3 +519,97 @@ func verifLemmaSequencerConsecutive(s *sequencer) (uint16, uint16) {
 //@   ensures pad_zero [C04]: err == nil && p.Header.Padding ==> forall q :: hdrSize(p.Header) + len(p.Payload) <= q && q < n - 1 ==> buf[q] == 0
 //@   ensures beyond_untouched [C04]: err == nil ==> forall q :: n <= q && q < len(buf) ==> buf[q] == old(buf[q])
 //@ end
+
+// ===== C05: SetExtension / DelExtension / GetExtension as an ordered map =====
+//
+// The element list is the abstract state: SetExtension replaces the value of
+// the first element carrying the id or appends (id, value); DelExtension
+// removes the first element carrying the id and keeps the order of the rest;
+// a call that returns an error changes nothing. Values are stored as the
+// caller's slices (sameSlice), which is what GetExtension hands back.
+//@ pure bool sameSlice(a, b) = sameobj(a, b) && off(a) == off(b) && len(a) == len(b)
+//@ pure bool representable(profile, id, n) = (profile == 48862 ==> 1 <= id && id <= 14 && 1 <= n && n <= 16) && (profile == 4096 ==> 1 <= id && n <= 255) && (profile != 48862 && profile != 4096 ==> id == 0)
+
+//@ spec (*Header).SetExtension
+//@   modifies h.Extension, h.ExtensionProfile, h.Extensions, h.Extensions[*cap]
+//@   loop 0: invariant nomatch [C05]: rangeindex <= len(h.Extensions) - 1 && (forall m :: 0 <= m && m <= rangeindex ==> h.Extensions[m].id != id)
+//@   ensures rejected_unchanged [C05]: err != nil ==> (h.Extension <==> old(h.Extension)) && h.ExtensionProfile == old(h.ExtensionProfile) && sameSlice(h.Extensions, old(h.Extensions)) && (forall j :: 0 <= j && j < len(h.Extensions) ==> h.Extensions[j].id == old(h.Extensions[j].id) && sameSlice(h.Extensions[j].payload, old(h.Extensions[j].payload)))
+//@   ensures accepted_is_representable [C05]: err == nil ==> representable(int(h.ExtensionProfile), int(id), len(payload))
+//@   ensures enabled [C05]: err == nil ==> h.Extension && (old(h.Extension) ==> h.ExtensionProfile == old(h.ExtensionProfile))
+//@   ensures others_kept [C05]: err == nil ==> len(h.Extensions) >= len(old(h.Extensions)) && (forall j :: 0 <= j && j < len(old(h.Extensions)) ==> h.Extensions[j].id == old(h.Extensions[j].id) && (old(h.Extensions[j].id) != id || !old(h.Extension) ==> sameSlice(h.Extensions[j].payload, old(h.Extensions[j].payload))))
+//@   ensures appended [C05]: err == nil && (!old(h.Extension) || (forall m :: 0 <= m && m < len(old(h.Extensions)) ==> old(h.Extensions[m].id) != id)) ==> len(h.Extensions) == len(old(h.Extensions)) + 1 && h.Extensions[len(h.Extensions) - 1].id == id && sameSlice(h.Extensions[len(h.Extensions) - 1].payload, payload)
+//@   ensures replaced [C05]: err == nil && old(h.Extension) ==> forall k :: 0 <= k && k < len(old(h.Extensions)) && old(h.Extensions[k].id) == id && (forall m :: 0 <= m && m < k ==> old(h.Extensions[m].id) != id) ==> len(h.Extensions) == len(old(h.Extensions)) && sameSlice(h.Extensions[k].payload, payload)
+//@   ensures later_duplicates_kept [C05]: err == nil && old(h.Extension) ==> forall k, j :: 0 <= k && k < j && j < len(old(h.Extensions)) && old(h.Extensions[k].id) == id ==> sameSlice(h.Extensions[j].payload, old(h.Extensions[j].payload))
+//@ end
+
+//@ spec (*Header).DelExtension
+//@   modifies h.Extensions, h.Extensions[*cap]
+//@   loop 0: invariant nomatch [C05]: rangeindex <= len(h.Extensions) - 1 && (forall m :: 0 <= m && m <= rangeindex ==> h.Extensions[m].id != id)
+//@   ensures disabled [C05]: !h.Extension ==> errIs(err, errHeaderExtensionsNotEnabled)
+//@   ensures not_found [C05]: h.Extension && (forall m :: 0 <= m && m < len(old(h.Extensions)) ==> old(h.Extensions[m].id) != id) ==> errIs(err, errHeaderExtensionNotFound)
+//@   ensures rejected_unchanged [C05]: err != nil ==> sameSlice(h.Extensions, old(h.Extensions)) && (forall j :: 0 <= j && j < len(h.Extensions) ==> h.Extensions[j].id == old(h.Extensions[j].id) && sameSlice(h.Extensions[j].payload, old(h.Extensions[j].payload)))
+//@   ensures removed [C05]: forall k :: 0 <= k && k < len(old(h.Extensions)) && h.Extension && old(h.Extensions[k].id) == id && (forall m :: 0 <= m && m < k ==> old(h.Extensions[m].id) != id) ==> err == nil && len(h.Extensions) == len(old(h.Extensions)) - 1
+//@   ensures witness [C05]: err == nil ==> exists w :: 0 <= w && w < len(old(h.Extensions)) && old(h.Extensions[w].id) == id && (forall m :: 0 <= m && m < w ==> old(h.Extensions[m].id) != id) && len(h.Extensions) == len(old(h.Extensions)) - 1 && (forall j :: 0 <= j && j < w ==> h.Extensions[j].id == old(h.Extensions[j].id) && sameSlice(h.Extensions[j].payload, old(h.Extensions[j].payload))) && (forall j :: w <= j && j < len(old(h.Extensions)) - 1 ==> h.Extensions[j].id == old(h.Extensions[j + 1].id) && sameSlice(h.Extensions[j].payload, old(h.Extensions[j + 1].payload)))
+//@   ensures before_kept [C05]: err == nil ==> forall k, j :: 0 <= j && j < k && k < len(old(h.Extensions)) && old(h.Extensions[k].id) == id && (forall m :: 0 <= m && m < k ==> old(h.Extensions[m].id) != id) ==> h.Extensions[j].id == old(h.Extensions[j].id) && sameSlice(h.Extensions[j].payload, old(h.Extensions[j].payload))
+//@   ensures after_shifted [C05]: err == nil ==> forall k, j :: 0 <= k && k <= j && j < len(old(h.Extensions)) - 1 && old(h.Extensions[k].id) == id && (forall m :: 0 <= m && m < k ==> old(h.Extensions[m].id) != id) ==> h.Extensions[j].id == old(h.Extensions[j + 1].id) && sameSlice(h.Extensions[j].payload, old(h.Extensions[j + 1].payload))
+//@ end
+
+// GetExtension (contract above: nil when disabled or absent, else the value of
+// the first element carrying the id) read after these two contracts gives the
+// map laws; the composition needs the existence of a *first* matching element,
+// an induction the solvers do not find: it is an argument over the contracts,
+// not a checked lemma.
+
+// ===== C01: Header.Unmarshal(Header.Marshal(h)) == h =====
+//
+// The encoder side is used through its contract (hdrImage: every octet of the
+// image as a function of h); the decoder's body is executed on that image, its
+// extension loop unrolled completely (at most 2 elements and 3 padding octets,
+// the bound of wfHeader), its CSRC loop cut by its own invariant.
+//@ spec verifLemmaHeaderRoundTrip
+//@   requires wfHeader(h)
+//@   case noext: !h.Extension
+//@   case onebyte0: h.Extension && h.ExtensionProfile == 48862 && len(h.Extensions) == 0
+//@   case onebyte1: h.Extension && h.ExtensionProfile == 48862 && len(h.Extensions) == 1
+//@   case onebyte2 [THOROUGH]: h.Extension && h.ExtensionProfile == 48862 && len(h.Extensions) == 2
+//@   case twobyte0: h.Extension && h.ExtensionProfile == 4096 && len(h.Extensions) == 0
+//@   case twobyte1: h.Extension && h.ExtensionProfile == 4096 && len(h.Extensions) == 1
+//@   case twobyte2 [THOROUGH]: h.Extension && h.ExtensionProfile == 4096 && len(h.Extensions) == 2
+//@   case legacy: h.Extension && h.ExtensionProfile != 48862 && h.ExtensionProfile != 4096
+//@   inline-calls Unmarshal
+//@   unroll 6 complete
+//@   unroll-loops Unmarshal:1
+//@   prune-paths
+//@   instantiate-reads
+//@   ensures accepted [C01]: err == nil && n == hdrSize(h)
+//@   ensures fixed [C01]: b.Version == h.Version && (b.Padding <==> h.Padding) && (b.Extension <==> h.Extension) && (b.Marker <==> h.Marker) && b.PayloadType == h.PayloadType && b.SequenceNumber == h.SequenceNumber && b.Timestamp == h.Timestamp && b.SSRC == h.SSRC
+//@   ensures csrc [C01]: len(b.CSRC) == len(h.CSRC) && (forall i :: 0 <= i && i < len(h.CSRC) ==> b.CSRC[i] == h.CSRC[i])
+//@   ensures profile [C01]: h.Extension ==> b.ExtensionProfile == h.ExtensionProfile
+//@   ensures elements [C01]: len(b.Extensions) == len(h.Extensions) && (0 < len(h.Extensions) ==> b.Extensions[0].id == h.Extensions[0].id && len(b.Extensions[0].payload) == len(h.Extensions[0].payload) && eqseq(b.Extensions[0].payload, 0, h.Extensions[0].payload, 0, len(h.Extensions[0].payload))) && (1 < len(h.Extensions) ==> b.Extensions[1].id == h.Extensions[1].id && len(b.Extensions[1].payload) == len(h.Extensions[1].payload) && eqseq(b.Extensions[1].payload, 0, h.Extensions[1].payload, 0, len(h.Extensions[1].payload)))
+//@ end
+func verifLemmaHeaderRoundTrip(h Header) (b Header, n int, err error) {
+	buf, err := h.Marshal()
+	if err != nil {
+		return b, 0, err
+	}
+	n, err = b.Unmarshal(buf)
+
+	return b, n, err
+}
+
+// ===== C05: a header left without elements still serialises =====
+//
+// DelExtension can remove the only element of a legacy (RFC 3550) extension
+// block; Marshal of such a header must not panic. The bodies of Marshal,
+// MarshalSize and MarshalTo are executed on it (their functional contracts
+// above assume exactly one legacy element).
+//@ spec verifLemmaLegacyWithoutElementMarshals
+//@   requires h.Extension && h.ExtensionProfile != 48862 && h.ExtensionProfile != 4096 && len(h.Extensions) == 0
+//@   requires h.Version <= 3 && h.PayloadType <= 127 && len(h.CSRC) <= 15
+//@   inline-calls Marshal, MarshalSize, MarshalTo
+//@   prune-paths
+//@   ensures empty_block [C05]: err == nil && len(buf) == 16 + 4*len(h.CSRC) && be16(buf, 12 + 4*len(h.CSRC)) == int(h.ExtensionProfile) && be16(buf, 14 + 4*len(h.CSRC)) == 0
+//@ end
+func verifLemmaLegacyWithoutElementMarshals(h Header) (buf []byte, err error) {
+	return h.Marshal()
+}
